@@ -51,10 +51,10 @@ Lemma wake_cas_old_eq old : wake_waiters_cas1_old old = old /\ wake_waiters_cas2
 Proof. split; reflexivity. Qed.
 
 (* set_on_release is 0 or MU_WRITER_WAITING *)
-Lemma xfer_set_small ty fca wk : small (snd (xfer ty fca wk)).
+Lemma xfer_set_small nn ty fca wk : small (snd (xfer nn ty fca wk)).
 Proof.
   unfold xfer. destruct wk as [|f rest]; [exact small_0|].
-  destruct (xfer_rest ty fca (mode_eqb (ty f) W) rest (if fca then mode_eqb (ty f) W else false)
+  destruct (xfer_rest nn ty fca (mode_eqb (ty f) W) rest (if fca then mode_eqb (ty f) W else false)
               (if fca then false else negb (mode_eqb (ty f) W))) as [[[m s] a] b].
   cbn [snd]. destruct (a && negb b); [exact small_32 | exact small_0].
 Qed.
@@ -140,6 +140,10 @@ Definition xpc_ok (s : tstate) (xp : xpc) : Prop :=
   | XwReacq l => is_acq_pc (w_lm l) (t_pc s) = true /\ w_m l = w_lm l
   | XvLoad3 k | XvCas2 k _ | XvLoad5 k => t_pc s = Idle /\ small (k_set k) /\ small (k_clr k)
   | XkLoad _ | XkSelect _ | XvLoad1 _ | XvCas1 _ _ | XvStore _ | XvV _ _ => t_pc s = Idle
+  | XnStore0 om | XnEnq om => t_pc s = Idle /\ match om with Some m => held s = Some m | None => True end
+  | XnUnlock _ => is_unl_pc (t_pc s) = true
+  | XnReady om | XnSem om | XnDeq om | XnSpin om => t_pc s = Idle /\ match om with Some _ => held s = None | None => True end
+  | XnReacq m => is_acq_pc m (t_pc s) = true
   end.
 (* every logged return of XWait m holds the mutex in mode m *)
 Definition rets_ok (xs : xtstate) : Prop := forall r, In r (x_rets xs) -> snd r = Some (fst r).
@@ -238,7 +242,7 @@ Proof.
   { destruct H0 as (_ & <- & _). apply xget_inb. rewrite Hx. discriminate. }
   pose proof H0 as (HI & HL & HT). destruct (HT t) as [_ Hr]. rewrite Hx in Hr.
   pose proof (mu_idle_pc _ _ MI) as PI.
-  destruct o as [o'|m| |].
+  destruct o as [o'|m| | |om].
   - (* XOp *) xnorm. unfold push_op; cbn [mw].
     apply XInv_upd; auto.
     + unfold set_t, Inv; cbn [word thr]. eapply InvL_upd; [exact HI | exact Ht | |].
@@ -252,6 +256,10 @@ Proof.
     destruct (mode_eqb m m') eqn:E; [|exact PI]. apply mode_eqb_eq in E. subst m'. split; assumption.
   - xnorm. rewrite nth_lupd_same by (rewrite HL; exact Ht). cbn [x_ops x_rets]. apply XInv_upd; auto.
   - xnorm. rewrite nth_lupd_same by (rewrite HL; exact Ht). cbn [x_ops x_rets]. apply XInv_upd; auto.
+  - (* XWaitN *) destruct om as [m|]; xnorm; rewrite nth_lupd_same by (rewrite HL; exact Ht); cbn [x_ops x_rets];
+      (apply XInv_upd; auto); [|cbn [x_pc xpc_ok]; auto].
+    destruct (held (get (mw xw) t)) as [m'|] eqn:Hh; cbn [x_pc]; [|exact PI].
+    destruct (mode_eqb m m') eqn:E; [|exact PI]. apply mode_eqb_eq in E. subst m'. split; assumption.
 Qed.
 
 Ltac xn Hx := xnorm; rewrite ?Hx; cbn [x_pc x_ops x_rets].
@@ -345,8 +353,8 @@ Proof.
     destruct c; [|destruct (cvq xw)]; cbn [fst]; try exact H0; xn Hx;
       (apply XInv_upd; [exact H0 | exact Ht | inv_conv HI | frame_tac | first [exact Hp | exact I] | exact Hr]).
   - (* XkSelect *) assert (t < n)%nat as Ht by (apply HtN; discriminate).
-    destruct (if bc then sel_broadcast (wtype (mw xw)) (cvq xw) else sel_signal (wtype (mw xw)) (cvq xw)) as [[wk kp] allr].
-    destruct wk; cbn [fst]; xn Hx;
+    destruct (if bc then sel_broadcast (xrd xw) (cvq xw) else sel_signal (xrd xw) (cvq xw)) as [[wk kp] allr].
+    destruct wk as [|f wk']; [|destruct (nrec xw f)]; cbn [fst]; xn Hx;
       (apply XInv_upd; [exact H0 | exact Ht | inv_conv HI | frame_tac | first [exact Hp | exact I] | exact Hr]).
   - (* XvLoad1 *) assert (t < n)%nat as Ht by (apply HtN; discriminate).
     destruct (xfer_wanted (wtype (mw xw)) (word (mw xw)) k); cbn [fst]; xn Hx;
@@ -354,8 +362,8 @@ Proof.
   - (* XvCas1 *) assert (t < n)%nat as Ht by (apply HtN; discriminate).
     unfold cas. destruct (wake_cas_old_eq old) as [-> _].
     destruct (Z.eqb_spec (word (mw xw)) old) as [Hc|Hc]; cbv beta iota.
-    + pose proof (xfer_set_small (wtype (mw xw)) (first_cant_acquire (wtype (mw xw)) old (k_wake k)) (k_wake k)) as Hs.
-      destruct (xfer (wtype (mw xw)) (first_cant_acquire (wtype (mw xw)) old (k_wake k)) (k_wake k)) as [[moved stay] set_on].
+    + pose proof (xfer_set_small (nrec xw) (wtype (mw xw)) (first_cant_acquire (wtype (mw xw)) old (k_wake k)) (k_wake k)) as Hs.
+      destruct (xfer (nrec xw) (wtype (mw xw)) (first_cant_acquire (wtype (mw xw)) old (k_wake k)) (k_wake k)) as [[moved stay] set_on].
       cbn [snd] in Hs. cbn [fst]. xn Hx.
       assert (Inv n (set_word (mw xw) (wake_waiters_cas1_new old))) as HI2.
       { apply Inv_set_word_SL; [exact HI|]. subst old. apply wake_cas1_SL, (Inv_rng _ _ HI). }
@@ -379,6 +387,60 @@ Proof.
       (apply XInv_upd; [exact H0 | exact Ht | inv_conv HI | frame_tac | first [exact Hp | exact I] | exact Hr]).
   - (* XvV *) assert (t < n)%nat as Ht by (apply HtN; discriminate).
     cbn [fst]; xn Hx; (apply XInv_upd; [exact H0 | exact Ht | inv_conv HI | frame_tac | | exact Hr]). wk_tac k.
+  - (* XnStore0 *) assert (t < n)%nat as Ht by (apply HtN; discriminate). cbn [fst]. xn Hx.
+    apply XInv_upd; [exact H0 | exact Ht | inv_conv HI | frame_tac | exact Hp | exact Hr].
+  - (* XnEnq *) assert (t < n)%nat as Ht by (apply HtN; discriminate). destruct Hp as (PI & Hh).
+    destruct om as [m|]; cbn [fst]; xn Hx.
+    + apply XInv_upd; [exact H0 | exact Ht | | frame_tac | | exact Hr].
+      * apply Inv_set_pc; [inv_conv HI | exact Ht |]. unfold pc_ok; cbn [t_pc held]. exact Hh.
+      * rewrite get_set_pc_same by (cbn [thr set_waiting]; rewrite Hlen; exact Ht). cbn [x_pc xpc_ok t_pc is_unl_pc]. auto.
+    + apply XInv_upd; [exact H0 | exact Ht | inv_conv HI | frame_tac | | exact Hr]. cbn [x_pc xpc_ok]. auto.
+  - (* XnUnlock *) rename Hp into U.
+    assert (t < n)%nat as Ht by (apply HtN; discriminate).
+    unfold mu_step. destruct (step (mw xw) t) as [m' e] eqn:E. xnorm.
+    assert (m' = fst (step (mw xw) t)) as Em by now rewrite E.
+    assert (Inv n m') as HI' by (rewrite Em; apply step_inv; assumption).
+    assert (forall t', t' <> t -> get m' t' = get (mw xw) t') as HF by (intros t' N; rewrite Em; now apply step_frame).
+    pose proof (step_unl n (mw xw) t HI U) as SU. cbv zeta in SU. rewrite <- Em in SU.
+    cbn [mw]. destruct (mu_pc_idle m' t) eqn:MI; cbn [fst]; xn Hx.
+    + apply mu_pc_idle_true in MI. destruct SU as [SU | [_ SU]]; [rewrite MI in SU; discriminate SU|].
+      apply XInv_upd; [exact H0 | exact Ht | exact HI' | exact HF | | exact Hr]. cbn [x_pc xpc_ok]. auto.
+    + apply mu_pc_idle_false in MI. destruct SU as [SU | [SU _]]; [|contradiction].
+      apply (XInv_mw _ _ _ _ t); [exact H0 | exact HI' | exact HF |]. unfold xget. rewrite Hx. cbn [x_pc xpc_ok]. auto.
+  - (* XnReady *) assert (t < n)%nat as Ht by (apply HtN; discriminate).
+    destruct (cv_ready_time_load1_guard (b2z (waiting (mw xw) t))); cbn [fst]; xn Hx;
+      (apply XInv_upd; [exact H0 | exact Ht | inv_conv HI | frame_tac | exact Hp | exact Hr]).
+  - (* XnSem *) assert (t < n)%nat as Ht by (apply HtN; discriminate).
+    destruct c; [destruct (0 <? sem (mw xw) t)|]; cbn [fst]; try exact H0; xn Hx;
+      (apply XInv_upd; [exact H0 | exact Ht | inv_conv HI | frame_tac | exact Hp | exact Hr]).
+  - (* XnDeq *) assert (t < n)%nat as Ht by (apply HtN; discriminate). destruct Hp as (PI & Hh).
+    destruct (waiting (mw xw) t && cv_dequeue_store1_guard (b2z (mem_id t (cvq xw)))); [destruct om as [m|]|]; cbn [fst]; xn Hx.
+    + apply XInv_upd; [exact H0 | exact Ht | | frame_tac | | exact Hr].
+      * apply Inv_set_pc; [inv_conv HI | exact Ht |]. unfold pc_ok; cbn [t_pc held]. exact Hh.
+      * rewrite get_set_pc_same by (cbn [thr set_waiting]; rewrite Hlen; exact Ht). cbn [x_pc xpc_ok t_pc is_acq_pc].
+        apply mode_eqb_refl.
+    + apply XInv_upd; [exact H0 | exact Ht | inv_conv HI | frame_tac | exact I | exact Hr].
+    + apply XInv_upd; [exact H0 | exact Ht | inv_conv HI | frame_tac | | exact Hr]. cbn [x_pc xpc_ok]. auto.
+  - (* XnSpin *) assert (t < n)%nat as Ht by (apply HtN; discriminate). destruct Hp as (PI & Hh).
+    destruct (waiting (mw xw) t); [|destruct om as [m|]]; cbn [fst]; try exact H0; xn Hx.
+    + apply XInv_upd; [exact H0 | exact Ht | | frame_tac | | exact Hr].
+      * apply Inv_set_pc; [exact HI | exact Ht |]. unfold pc_ok; cbn [t_pc held]. exact Hh.
+      * rewrite get_set_pc_same by (rewrite Hlen; exact Ht). cbn [x_pc xpc_ok t_pc is_acq_pc]. apply mode_eqb_refl.
+    + apply XInv_upd; [exact H0 | exact Ht | inv_conv HI | frame_tac | exact I | exact Hr].
+  - (* XnReacq *) rename Hp into A.
+    assert (t < n)%nat as Ht by (apply HtN; discriminate).
+    unfold mu_step. destruct (step (mw xw) t) as [m' e] eqn:E. xnorm.
+    assert (m' = fst (step (mw xw) t)) as Em by now rewrite E.
+    assert (Inv n m') as HI' by (rewrite Em; apply step_inv; assumption).
+    assert (forall t', t' <> t -> get m' t' = get (mw xw) t') as HF by (intros t' N; rewrite Em; now apply step_frame).
+    pose proof (step_acq (mw xw) t _ A) as SA. cbv zeta in SA. rewrite <- Em in SA.
+    cbn [mw]. destruct (mu_pc_idle m' t) eqn:MI; cbn [fst]; xn Hx.
+    + apply mu_pc_idle_true in MI. destruct SA as [SA | (_ & SA & _)]; [rewrite MI in SA; discriminate SA|].
+      rewrite nth_lupd_same by (rewrite HL; exact Ht). cbn [x_ops x_rets].
+      apply XInv_upd; [exact H0 | exact Ht | exact HI' | exact HF | exact I |].
+      intros r [<- | Hin]; [cbn [fst snd]; rewrite SA; reflexivity | apply Hr, Hin].
+    + apply mu_pc_idle_false in MI. destruct SA as [SA | [SA _]]; [|contradiction].
+      apply (XInv_mw _ _ _ _ t); [exact H0 | exact HI' | exact HF |]. unfold xget. rewrite Hx. cbn [x_pc xpc_ok]. auto.
 Qed.
 
 Lemma xstep_inv xw a : XInv xw -> XInv (fst (xstep xw a)).
